@@ -1,4 +1,5 @@
 import RodbusModel.Model.Tls
+import RodbusModel.Model.TlsClientChain
 /-
   `tls` suite: expected outcome of a handshake of the grid (C09).
   tls srv <min> <mode> <authz> <peer versions> <peer cert[+extra cert]|none> [<expected ss cert>]
@@ -69,7 +70,8 @@ def runTls (tok : List String) : String × String :=
       let ca := mode = "ca" ∨ mode = "cad"
       let m : Mode := if ca then .authority 1 else .selfSigned (idOf (rest.headD srv))
       let nm : Option String := if ca ∧ name ≠ "-" then some name else none
-      match admitClient (minOf mn) m nm (versOf vers) (certOf srv) with
+      -- `a+b`: the server sends certificate b after its own certificate a
+      match admitClientChain (minOf mn) m nm (versOf vers) ((srv.splitOn "+").filterMap certOf) with
       | none => "hs=fail ver=- req=-"
       | some v => s!"hs=ok ver={verStr v} req=timeout"
     | _ => "bad-case"
